@@ -159,11 +159,42 @@ def random_script(rng, mode, length):
     return out
 
 
+def crowd_script(rng, mode):
+    """A LAN with more hosts than any fixed-size scratch structure in purge (16): 18-20 addresses over a few
+    MACs come up, age out together, are purged together; some return in between. NIC configuration 0 or 2 only
+    (the /28 LAN is too small); the pseudo action {"a": "cfg"} is consumed by write_script."""
+    macs = rng.sample(CLIENTS, rng.randint(3, 6))
+    ips = ["a%d" % i for i in rng.sample(range(1, 21), rng.randint(17, 20))] + rng.sample(LLA, 2)
+    fr = "fip" if mode == "notify" else "ip"
+    def frame(m, ip):
+        a = {"a": fr, "src": m, "key": m, "ip": ip}
+        if mode == "notify":
+            a.update({"slot": "dhcp", "name": "noname"})
+        return a
+    out = [{"a": "cfg", "cfg": rng.choice([0, 2])}]
+    owner = {}
+    for ip in ips:
+        owner[ip] = rng.choice(macs)
+        out.append(frame(owner[ip], ip))
+    out += [{"a": "adv", "d": 3}]
+    keep = rng.sample(ips, rng.randint(0, 3))
+    out += [frame(owner[ip], ip) for ip in keep]
+    out += [{"a": "purge"}, {"a": "adv", "d": 5}]
+    back = rng.sample(ips, rng.randint(0, 4))
+    out += [frame(rng.choice(macs), ip) for ip in back]
+    out += [{"a": "purge"}, {"a": "adv", "d": 5}, {"a": "purge"}]
+    out += [frame(rng.choice(macs), ip) for ip in rng.sample(ips, 5)]
+    return out
+
+
 def write_script(path, behaviours, ncfg=3):
     n = 0
     with open(path, "w") as f:
         for i, h in enumerate(behaviours):
-            f.write(json.dumps({"a": "reset", "cfg": i % ncfg, "id": i}) + "\n")
+            cfg = i % ncfg
+            if h and h[0].get("a") == "cfg":
+                cfg, h = h[0]["cfg"], h[1:]
+            f.write(json.dumps({"a": "reset", "cfg": cfg, "id": i}) + "\n")
             for a in h:
                 f.write(json.dumps(a) + "\n")
                 n += 1
@@ -330,7 +361,8 @@ def run_family(ctx, check, modes, shared=False):
         rng.shuffle(hs)
         behaviours.append(("sim-%s" % mode, hs[:sim_num]))
         n, ln = (300, 40) if quick else (3000, 60)
-        behaviours.append(("rand-%s" % mode, [random_script(rng, mode, ln) for _ in range(n)]))
+        behaviours.append(("rand-%s" % mode, [random_script(rng, mode, ln) for _ in range(n)] +
+                           [crowd_script(rng, mode) for _ in range(12 if quick else 120)]))
     total_lines = validated = nbeh = 0
     distinct = set()
     samples = []
